@@ -245,14 +245,24 @@ func (w *worker[T, JobType]) processNextJob() error {
 	// Count the job as in flight before it leaves its queue, so that WaitUntilFinished always
 	// sees it, either as pending or as processing. If nothing is dispatched in the end the
 	// reservation is returned and the waiters are told.
-	w.curProcessing.Add(1)
+	reserved := w.curProcessing.Add(1)
 	dispatched := false
 
 	defer func() {
 		if !dispatched {
 			w.releaseWaiters(w.curProcessing.Add(^uint32(0)))
+			// the slot is free again: whoever looked while it was taken (the current event loop,
+			// when this is one that outlived a Restart) must look again
+			w.notifyToPullNextJobs()
 		}
 	}()
+
+	// The guard that led here may be out of date: an event loop that outlived a Restart can
+	// evaluate it before the Restart and arrive after its successor has filled the limit (or
+	// TunePool lowered it). A reservation above the limit is handed back.
+	if reserved > w.concurrency.Load() {
+		return nil
+	}
 
 	// The worker may have been paused or stopped since the event loop looked. With the slot
 	// reserved first, either PauseAndWait/Stop see the reservation and wait for it, or the
